@@ -240,6 +240,7 @@ def createType (ts : TypeSystem) (name : String) (superName : String := ANNOTATI
   if K.finalTypes.contains superName then throw .valueError
   if hasExact ts name && !(K.predefined.contains name) then throw .valueError
   let sup ← getType ts superName
+  if K.finalTypes.contains sup.name then throw .valueError     -- the supertype may be given by short name
   let new0 : TypeRec := { name := name, super := some sup.name, descr := descr }
   -- `supertype._children[name] = new_type`
   let sup' := if sup.children.contains name then sup else { sup with children := sup.children ++ [name] }
